@@ -890,7 +890,7 @@ impl<'a> IrEmitter<'a> {
                 Some(DeriveId::Serialize) => quote! { serde::Serialize },
                 Some(DeriveId::Deserialize) => quote! { serde::Deserialize },
                 _ => {
-                    let d_ident = format_ident!("{}", d);
+                    let d_ident = format_ident!("{}", Self::escape_keyword(d));
                     quote! { #d_ident }
                 }
             })
@@ -1010,7 +1010,7 @@ impl<'a> IrEmitter<'a> {
                 Some(DeriveId::Serialize) => quote! { serde::Serialize },
                 Some(DeriveId::Deserialize) => quote! { serde::Deserialize },
                 _ => {
-                    let d_ident = format_ident!("{}", d);
+                    let d_ident = format_ident!("{}", Self::escape_keyword(d));
                     quote! { #d_ident }
                 }
             })
